@@ -211,23 +211,48 @@ func (e StdEng) Dot(x, y Tensor, opts ...FuncOpt) (retVal Tensor, err error) {
 				return
 			}
 			var ret interface{}
-			if ret, err = e.Inner(a, b); err != nil {
+			var va, vb Tensor
+			if va, err = blasOperand(a); err != nil {
+				return nil, errors.Wrapf(err, opFail, "Dot")
+			}
+			if vb, err = blasOperand(b); err != nil {
+				return nil, errors.Wrapf(err, opFail, "Dot")
+			}
+			if ret, err = e.Inner(va, vb); err != nil {
 				return nil, errors.Wrapf(err, opFail, "Dot")
 			}
 			return New(FromScalar(ret)), nil
 		case b.IsMatrix():
-			b.T()
-			defer b.UT()
+			// vector·matrix is (matrixᵀ)·vector. Work on a transposed copy: transposing b
+			// itself for the duration of the call is visible to concurrent readers of b,
+			// and loses a transpose that was already pending on it.
+			var bt DenseTensor = b
+			if bd, ok := b.(*Dense); ok {
+				if bd.IsMaterializable() {
+					// a view, or a transpose is already pending: bring it into its logical order first
+					if bd, ok = bd.Materialize().(*Dense); !ok {
+						return nil, errors.Errorf(opFail, "Dot")
+					}
+				}
+				var btd *Dense
+				if btd, err = bd.SafeT(); err != nil {
+					return nil, errors.Wrapf(err, opFail, "Dot")
+				}
+				bt = btd
+			} else {
+				b.T()
+				defer b.UT()
+			}
 			switch {
 			case reuse != nil && incr != nil:
-				return b.MatVecMul(a, WithReuse(reuse), WithIncr(incr))
+				return bt.MatVecMul(a, WithReuse(reuse), WithIncr(incr))
 			case reuse != nil:
-				return b.MatVecMul(a, WithReuse(reuse))
+				return bt.MatVecMul(a, WithReuse(reuse))
 			case incr != nil:
-				return b.MatVecMul(a, WithIncr(incr))
+				return bt.MatVecMul(a, WithIncr(incr))
 			default:
 			}
-			return b.MatVecMul(a)
+			return bt.MatVecMul(a)
 		default:
 
 		}
